@@ -374,13 +374,13 @@ static int cond_get_exp (int priority) {
           break;
         case DIV:
           if (value2)
-            value /= value2;
+            value = (value2 == -1) ? (int) (0u - (unsigned) value) : value / value2;	/* INT_MIN / -1 traps */
           else
             yyerrorp ("division by 0 in %cif");
           break;
         case MOD:
           if (value2)
-            value %= value2;
+            value = (value2 == -1) ? 0 : value % value2;
           else
             yyerrorp ("modulo by 0 in %cif");
           break;
